@@ -418,17 +418,28 @@ def evaluate(ctx, cfg, ref, h, A, nthreads, gran, how):
                              "got": back[:4].tolist(), "want": ref.data[inb][:4].tolist()}
         unwritten = int((count == 0).sum())
         rewritten = int((count > 1).sum())
+        rewritten_by_other = overlap is not None
+        if unwritten and h.assemble_out is not None and _bytes_equal(h.assemble_out[1], ref.data) \
+                and ref.data[count == 0].any():
+            # the result holds the right non-zero values in slots for which the logging view saw no store: the
+            # code wrote through a path the view cannot see (np.copyto, out=, a reshaped view).  Not observable
+            # is not a violation: drop the slot accounting of this run (a required monitor with zero
+            # evaluations makes the whole check inconclusive).
+            ctx.drop("stores-not-observable-through-logging-view")
+            unwritten = None
 
         def mech_slots():
             if unwritten and not rewritten:
                 return "slot-never-written"
             if rewritten and not unwritten:
-                return "slot-written-more-than-once"
+                return "slot-written-more-than-once" if rewritten_by_other else \
+                    "slot-written-more-than-once-by-its-own-thread"
             return "slots-unwritten-and-rewritten"
-        ctx.check("slots-written-exactly-once", unwritten == 0 and rewritten == 0, mech=mech_slots,
-                  unwritten_slots=unwritten, rewritten_slots=rewritten,
-                  first_unwritten_pair=lambda: ref.pair_of_block[int(np.flatnonzero(count == 0)[0] // nt)]
-                  if unwritten else None, **tag)
+        if unwritten is not None:
+            ctx.check("slots-written-exactly-once", unwritten == 0 and rewritten == 0, mech=mech_slots,
+                      unwritten_slots=unwritten, rewritten_slots=rewritten,
+                      first_unwritten_pair=lambda: ref.pair_of_block[int(np.flatnonzero(count == 0)[0] // nt)]
+                      if unwritten else None, **tag)
         ctx.check("writes-disjoint-across-workers", overlap is None, mech="overlapping-writes-by-different-workers",
                   first=overlap, **tag)
 
